@@ -352,7 +352,8 @@ def feature(c):
 
 
 QUICK = {}
-THOROUGH = {"QlimSet": '{"loose", "tight"}', "VarSet": "{1, 2, 3}", "Profiles": '{"lin", "quad", "pwl"}', "GridModelMax": "1000",
+# (sized so that the sequential enumeration of the initial states stays near ten minutes: 26k configurations)
+THOROUGH = {"QlimSet": '{"tight"}', "VarSet": "{1, 3}", "Profiles": '{"lin", "quad", "pwl"}', "GridModelMax": "1000",
             "DclSet": '{"none", "f", "F", "r", "R", "fr", "rf", "ff", "frf"}', "ShiftSet": "{0, 30, 150, 330}",
             "GhostSet": '{"none", "sgen", "load", "storage"}',
             "CtrlSets": '{{}, {"gen"}, {"sgen"}, {"load"}, {"storage"}, {"gen", "storage"}, {"sgen", "load"}, '
